@@ -45,7 +45,59 @@ struct Program {
 const UNIQUE_CLASSES: [&str; 9] = ["P8", "PB", "L40", "LS", "S4", "L16", "N8", "N40", "A32"];
 const ALL_CLASSES: [&str; 13] = ["P8", "PB", "L40", "LS", "S4", "L16", "S1", "Z0", "ZA", "N4", "N8", "N40", "A32"];
 
+/// observer-heavy short programs: one or two threads each run a short script of state-changing calls while one or
+/// two threads that hold only ONE side call the observers back to back (30-40 calls). An observer whose answer is put
+/// together from two looks at the channel (or is simply wrong in a transient state) contradicts the answers around
+/// it; the linearizability check over the whole history decides.
+fn gen_obs(rng: &mut Rng, miri: bool, classes: &[&'static str]) -> Program {
+    let cap = *rng.pick(&[Some(1), Some(2), None, Some(0), Some(3)]);
+    let class = *rng.pick(classes);
+    let mut threads = Vec::new();
+    let scripts_s: [&[Op]; 8] = [
+        &[Op::TrySend, Op::DropS],
+        &[Op::Send, Op::DropS],
+        &[Op::TrySend, Op::TrySend, Op::DropS],
+        &[Op::CloneS(false), Op::TrySendRt, Op::DropS, Op::DropS],
+        &[Op::TrySend, Op::CloseS],
+        &[Op::ASendDrop(1), Op::ConvS, Op::DropS],
+        &[Op::TrySendOpt, Op::CloneS(true), Op::DropS, Op::TrySend, Op::DropS],
+        &[Op::SendTimeout(50), Op::DropS],
+    ];
+    let scripts_r: [&[Op]; 6] = [
+        &[Op::TryRecv, Op::DropR],
+        &[Op::RecvTimeout(100), Op::DropR],
+        &[Op::Drain, Op::CloneR(true), Op::DropR, Op::DropR],
+        &[Op::TryRecvRt, Op::CloseR],
+        &[Op::ARecvDrop(1), Op::ConvR, Op::DropR],
+        &[Op::RecvTimeout(20), Op::TryRecv, Op::DropR],
+    ];
+    // mutators: always one sender script; often a receiver script as well
+    threads.push(ThreadPlan { sender: Some(rng.chance(1, 2)), receiver: None, ops: rng.pick(&scripts_s).to_vec(), reps: 1, until_end: false });
+    if rng.chance(1, 2) {
+        threads.push(ThreadPlan { sender: None, receiver: Some(rng.chance(1, 2)), ops: rng.pick(&scripts_r).to_vec(), reps: 1, until_end: false });
+    }
+    let nobs = if miri { 1 } else { 1 + rng.below(2) as usize };
+    for k in 0..nobs {
+        // the first observer looks from the receive side (it sees the senders leave), a second one from either
+        let recv_side = k == 0 || rng.chance(1, 2);
+        let pool: &[Op] = if recv_side {
+            &[Op::IsTerminated, Op::IsTerminated, Op::IsDisconnectedR, Op::Len, Op::IsEmpty, Op::IsFull, Op::SenderCount, Op::ReceiverCount, Op::IsClosed]
+        } else {
+            &[Op::IsDisconnectedS, Op::IsDisconnectedS, Op::Len, Op::IsEmpty, Op::IsFull, Op::SenderCount, Op::ReceiverCount, Op::IsClosed]
+        };
+        let n = if miri { 8 } else { 30 + rng.below(11) as usize };
+        // favour one observer per thread (half of the calls), the rest mixed
+        let fav = *rng.pick(pool);
+        let ops: Vec<Op> = (0..n).map(|_| if rng.chance(1, 2) { fav } else { *rng.pick(pool) }).collect();
+        threads.push(ThreadPlan { sender: (!recv_side).then(|| rng.chance(1, 2)), receiver: recv_side.then(|| rng.chance(1, 2)), ops, reps: 1, until_end: false });
+    }
+    Program { cap, class, async_ctor: rng.chance(1, 2), threads, delay_permille: 0 }
+}
+
 fn gen_short(rng: &mut Rng, miri: bool, classes: &[&'static str]) -> Program {
+    if rng.chance(1, 4) {
+        return gen_obs(rng, miri, classes);
+    }
     let cap = *rng.pick(&[Some(0), Some(0), Some(1), Some(2), None, Some(3)]);
     let class = *rng.pick(classes);
     let nth = if miri { 2 + rng.below(2) } else { 2 + rng.below(3) } as usize;
